@@ -35,6 +35,8 @@ HISTORIES = [
     [("WINCH", "a"), ("HUP", "a"), ("USR2", "a"), ("STOP", "a")],  # 11 (daemon)
     [("USR2", "a"), ("WINCH", "a"), ("STOP", "b"), ("HUP", "a")],  # 12 (daemon): rollback onto a winched master, then HUP
     [("USR2F", "a"), ("USR2F", "a"), ("STOP", "a")],              # 13
+    # 14 (daemon): the documented back-out (retire old workers, stop the new master, HUP), then the next upgrade
+    [("USR2", "a"), ("WINCH", "a"), ("STOP", "b"), ("HUP", "a"), ("USR2", "a"), ("STOP", "a")],
 ]
 
 
@@ -49,7 +51,11 @@ def read_pid(path):
 
 
 def run_history(hist, bind, stopsig, wk="sync", nopid=False, extra_args=()):
-    """nopid: no pid file is configured; masters are then found through the process table"""
+    """nopid: no pid file is configured; masters are then found through the process table
+    extra_args may contain the pseudo-argument "@release": the server runs from a symlinked release directory and
+    every USR2 is preceded by a deployment (symlink repointed, previous release removed)"""
+    release = "@release" in extra_args
+    extra_args = tuple(x for x in extra_args if x != "@release")
     early = any(op == "USR2_EARLY" for op, _ in hist)
     daemon = any(op == "WINCH" for op, _ in hist)
     flag = os.path.join(rp._scratch(), "broken_%d_%d" % (os.getpid(), threading.get_ident()))
@@ -57,7 +63,8 @@ def run_history(hist, bind, stopsig, wk="sync", nopid=False, extra_args=()):
     if early:
         env["VERIF_BOOT_SLEEP"] = "1.5"
     s = rp.Server(wk, workers=1, bind=bind, pidfile=not nopid, daemon=daemon,
-                  args=["--graceful-timeout", "3"] + (["--preload"] if early else []) + list(extra_args), env=env, name="c14")
+                  args=["--graceful-timeout", "3"] + (["--preload"] if early else []) + list(extra_args), env=env, name="c14",
+                  release=release)
     masters = {}           # name -> pid
     stop = threading.Event()
     counters = {"refused": 0, "complete": 0, "failed": 0}
@@ -177,6 +184,8 @@ def run_history(hist, bind, stopsig, wk="sync", nopid=False, extra_args=()):
                 continue
             if op == "USR2":
                 before = set(rp.children_of(masters[m])) if alive(m) else set()
+                if release:
+                    s.switch_release()
                 if alive(m):
                     os.kill(masters[m], signal.SIGUSR2)
                 # a new master, if any, records itself under ".2" once it is listening
@@ -216,7 +225,7 @@ def run_history(hist, bind, stopsig, wk="sync", nopid=False, extra_args=()):
         stop.set()
         [t.join(6) for t in ths]
         tr = {"unix": bind == "unix", "nopid": bool(nopid), "ev": ev}
-        return tr, {"hist": hist, "bind": bind, "nopid": bool(nopid), "extra_args": list(extra_args), "sig": int(stopsig), "complete": counters["complete"], "failed": counters["failed"],
+        return tr, {"hist": hist, "bind": bind, "nopid": bool(nopid), "extra_args": list(extra_args) + (["@release"] if release else []), "sig": int(stopsig), "complete": counters["complete"], "failed": counters["failed"],
                     "masters": masters}
     finally:
         stop.set()
@@ -269,11 +278,15 @@ def c14(ctx):
                 (HISTORIES[4], "unix", signal.SIGTERM, True), (HISTORIES[3], "tcp", signal.SIGQUIT, True),
                 (HISTORIES[6], "unix", signal.SIGTERM), (HISTORIES[7], "tcp", signal.SIGQUIT),
                 # worker timeouts switched off (--timeout 0): promotion and reaping must not depend on the watchdog's tick
-                (HISTORIES[4], "tcp", signal.SIGTERM, False, ("--timeout", "0"))]
+                (HISTORIES[4], "tcp", signal.SIGTERM, False, ("--timeout", "0")),
+                (HISTORIES[14], "unix", signal.SIGTERM),
+                # a "current -> releases/N" deployment: every USR2 follows a switch of the symlink
+                (HISTORIES[4], "unix", signal.SIGTERM, False, ("@release",))]
     else:
         plan = [(h, b, sg) for h in HISTORIES for b in ("tcp", "unix") for sg in (signal.SIGTERM, signal.SIGQUIT)]
         plan += [(HISTORIES[k], b, signal.SIGTERM, True) for k in (0, 1, 3, 4, 6, 7) for b in ("tcp", "unix")]
         plan += [(HISTORIES[k], b, signal.SIGTERM, False, ("--timeout", "0")) for k in (0, 1, 3, 4) for b in ("tcp", "unix")]
+        plan += [(HISTORIES[k], b, signal.SIGTERM, False, ("@release",)) for k in (0, 1, 3, 4) for b in ("tcp", "unix")]
     from props.reload_real import _parallel
     results = _parallel(plan, lambda a, i: run_history(a[0], a[1], a[2], wk=rng.choice(["sync", "gthread"]), nopid=len(a) > 3 and a[3],
                                                            extra_args=a[4] if len(a) > 4 else ()), par=11)
